@@ -2,6 +2,7 @@ import KyupyVerif.Proofs.Transform
 import KyupyVerif.Proofs.TransformElim
 import KyupyVerif.Proofs.TransformStable
 import KyupyVerif.Proofs.TransformSem6
+import KyupyVerif.Proofs.TransformSem7
 import KyupyVerif.Proofs.Substitute4
 import KyupyVerif.Proofs.SubstituteRes
 import KyupyVerif.Proofs.SubstSem9
@@ -275,6 +276,37 @@ theorem elim_sem_captures {α : Type _} [BEq α] [LawfulBEq α] (nn nn' : NNet) 
   have si := SI.of_wf (WF.of_wf h) hf
   obtain ⟨s, sem⟩ := elimForksInM_sim z neg prim order nn nn' r si he
   exact sim_captures s v _ z (sim_consistentB si s z neg prim sem asg v hc).2 p' hp'
+
+/-- **converse of `elim_sem` and uniqueness** (audit finding 5): the labellings of `nn` and of `nn'` correspond ONE-TO-ONE.
+    (existence) every consistent labelling `v'` of the result under the permuted assignment is `relabel` of a consistent
+    labelling `v` of the original circuit (a removed fork is 1:1, so the value of the removed out-line is that of the
+    fork's in-line); (uniqueness) two consistent labellings of the original with the same `relabel` agree on every line of
+    the original — together with `elim_sem`: `v ↦ relabel r nn' v z` is a bijection between the consistent labellings (as
+    functions on the lines of `nn`) of `nn` under `asg` and those of `nn'` under `reassign r nn nn' asg`. -/
+theorem elim_sem_converse {α : Type _} [BEq α] [LawfulBEq α] (nn nn' : NNet) (r : Ren) (order : List String)
+    (h : nn.wf = true) (hf : nn.forkIns1 = true) (he : elimForksInM skip order nn = some (nn', r))
+    (z : α) (neg : α → α) (prim : String → α → α → α → α → α) (asg : Nat → α) :
+    (∀ v' : Array α, consistentB nn'.net z neg prim (reassign r nn nn' asg) v' = true →
+      ∃ v : Array α, v.size = nn.net.lines.size ∧ consistentB nn.net z neg prim asg v = true ∧
+        (∀ l', l' < nn'.net.lines.size → v.getD (r.line l') z = v'.getD l' z) ∧
+        (v'.size = nn'.net.lines.size → relabel r nn' v z = v')) ∧
+    (∀ v1 v2 : Array α, consistentB nn.net z neg prim asg v1 = true → consistentB nn.net z neg prim asg v2 = true →
+      relabel r nn' v1 z = relabel r nn' v2 z → ∀ l, l < nn.net.lines.size → v1.getD l z = v2.getD l z) := by
+  have si := SI.of_wf (WF.of_wf h) hf
+  obtain ⟨s, _, sq, su⟩ := elimForksInM_simQ z neg prim order nn nn' r si he
+  exact ⟨fun v' hc' => sim_consistentB_conv si s z neg prim sq asg v' hc',
+    fun v1 v2 c1 c2 e => sim_consistentB_unique si s z neg prim su asg v1 v2 c1 c2 e⟩
+
+/-- **the result of `eliminate_1to1_forks` is well-formed** and its forks have one input: the hypotheses of `copy_dump_eq`,
+    `pickle_dump_eq`, `elim_*` (again), `substitute_*` and of C01 hold for the result, so the theorems chain -/
+theorem elim_wf (nn nn' : NNet) (r : Ren) (order : List String) (h : nn.wf = true) (hf : nn.forkIns1 = true)
+    (he : elimForksInM skip order nn = some (nn', r)) : nn'.wf = true ∧ nn'.forkIns1 = true :=
+  elimForksInM_wf order nn nn' r (WF.of_wf h) hf he
+
+/-- chaining: `copy()` / pickle round trip of the result of `eliminate_1to1_forks` is the same dump -/
+theorem elim_then_copy (nn nn' : NNet) (r : Ren) (order : List String) (h : nn.wf = true) (hf : nn.forkIns1 = true)
+    (he : elimForksInM skip order nn = some (nn', r)) : copyNet nn' = nn' ∧ pickleNet nn' = nn' :=
+  ⟨copy_dump_eq nn' (elim_wf nn nn' r order h hf he).1, pickle_dump_eq nn' (elim_wf nn nn' r order h hf he).1⟩
 
 /-- one loop iteration (the splice): the fork's in-line takes the place of the out-line at the reader pin, the fork and
     the out-line are deleted with swap-with-last; `r = stepRen nn i b` -/
